@@ -261,8 +261,12 @@ def Comp.prog : Comp → Prog
   /- `_set = await super().set(...)`; `if _set and tags: for tag in tags: await self.set_add(...)`; `return _set` -/
   | .setTagged key tags =>
     .call (.keyed .set key) fun a => if a.truth then addToTags a tags else .done a
-  /- `_set = await super().incr(...)`; `if tags: for tag in tags: await self.set_add(...)`; `return _set` -/
-  | .incrTagged key tags => .call (.keyed .incr key) fun a => addToTags a tags
+  /- `_set = await super().incr(...)`; `if tags and _set is not None: for tag in tags: await self.set_add(...)`;
+     `return _set`  (since D73, /repo 1e5a055: a disabled `incr` answers None and files nothing) -/
+  | .incrTagged key tags =>
+    .call (.keyed .incr key) fun a => match a with
+      | .none_ => .done a
+      | _ => addToTags a tags
   /- `value = await self.get(key, default=_empty)`; `if value is not _empty: return value`;
      `_default = <the caller's default / factory>`; `await self.set(key, _default, expire=expire)`; `return _default` -/
   | .getOrSet key =>
